@@ -2,7 +2,8 @@
    Statements only; proofs are in C02/Proofs*.v. *)
 From Coq Require Import List Arith QArith Qminmax Lqa Lia Bool.
 From AIT Require Import Base.Qx Base.Mdp Base.MdpExec C02.Model C02.Spec C02.ProofsVec C02.ProofsCross
-  C02.ProofsSched C02.ProofsProj C02.ProofsIP C02.ProofsPrunePw C02.ProofsEV C02.ProofsRTBSS C02.ProofsSchedAll.
+  C02.ProofsSched C02.ProofsProj C02.ProofsIP C02.ProofsPrunePw C02.ProofsEV C02.ProofsRTBSS C02.ProofsSchedAll
+  C04.Model C02.ModelWitness C02.ProofsWitness.
 Import ListNotations.
 Local Open Scope Q_scope.
 
@@ -114,3 +115,130 @@ Proof.
   - apply rtbss_cleanb_sound. vm_compute. reflexivity.
   - intros [|[|s]] [|[|a]] Hs Ha; try lia; vm_compute; discriminate.
 Qed.
+
+(* ------------------------------------------------------------------------------------------------
+   Witness (src: POMDP/Algorithms/Witness.hpp).  The model (C02/ModelWitness.v) is the agenda loop with
+   the LP as an oracle.  For every oracle whose "no witness" answers are complete up to eps >= 0 (per
+   unit of belief mass), every list of non-empty unpruned projection lists and every fuel: if the
+   loop ends, the list found has the cross-sum envelope of the projections up to |O|*eps — the witness
+   theorem.  Nothing is assumed about the answers "witness b" (they only matter for termination). *)
+Theorem witness_envelope : forall S row,
+  Forall (fun r => r <> []) row -> Forall (wfl S) row ->
+  (forall o i e, nth_error (nth o row []) i = Some e -> obs e = [i]) ->
+  forall eps, 0 <= eps ->
+  forall (oracle : nat -> nat -> list vec -> vec -> option vec) t a,
+  (forall Uv cand, oracle t a Uv cand = None ->
+     forall b, nonneg b -> length b = S -> exists u, In u Uv /\ dot cand b <= dot u b + eps * qsum b) ->
+  forall fuel U, wit_action oracle fuel t a S row = Some U ->
+    U <> [] /\ wfl S U /\
+    forall b, nonneg b -> length b = S ->
+      Qenv row b - inject_Z (Z.of_nat (length row)) * (eps * qsum b) <= vbest U b /\ vbest U b <= Qenv row b.
+Proof. exact wit_action_envelope_lemma. Qed.
+Print Assumptions witness_envelope.
+
+(* Whole runs: for every pruning function as in ip_value, every POMDP, horizon and (unnormalised)
+   belief, a Witness run that ends returns a surface within wit_err h (= sum_k discount^k |O| eps per
+   unit of mass) below exhaustive expectimax and never above it. *)
+Theorem witness_run_value : forall (prune : vlist -> vlist),
+  (forall l e, In e (prune l) -> In e l) ->
+  (forall l, l <> [] -> prune l <> []) ->
+  (forall S l b, l <> [] -> wfl S l -> nonneg b -> length b = S -> vbest (prune l) b == vbest l b) ->
+  forall m, wf_pomdp1 m -> obs_clean m ->
+  forall eps, 0 <= eps ->
+  forall (oracle : nat -> nat -> list vec -> vec -> option vec),
+  (forall t a Uv cand, oracle t a Uv cand = None ->
+     forall b, nonneg b -> length b = nS (pm m) -> exists u, In u Uv /\ dot cand b <= dot u b + eps * qsum b) ->
+  forall fuel h vf, wit_run oracle prune fuel m h = Some vf ->
+  forall b, nonneg b -> length b = nS (pm m) ->
+    EV m h b - wit_err m eps h * qsum b <= vbest (last vf []) b /\ vbest (last vf []) b <= EV m h b.
+Proof.
+  intros prune H1 H2 H3 m Hwf Hc eps He oracle Hcomp fuel h vf Hrun b Hb Hl.
+  exact (proj2 (proj2 (wit_run_value_lemma prune H1 H2 H3 m Hwf Hc eps He oracle Hcomp fuel h vf Hrun)) b Hb Hl).
+Qed.
+Print Assumptions witness_run_value.
+
+(* With an exact oracle (eps = 0) the Witness surface IS exhaustive expectimax. *)
+Theorem witness_run_exact : forall (prune : vlist -> vlist),
+  (forall l e, In e (prune l) -> In e l) ->
+  (forall l, l <> [] -> prune l <> []) ->
+  (forall S l b, l <> [] -> wfl S l -> nonneg b -> length b = S -> vbest (prune l) b == vbest l b) ->
+  forall m, wf_pomdp1 m -> obs_clean m ->
+  forall (oracle : nat -> nat -> list vec -> vec -> option vec),
+  (forall t a Uv cand, oracle t a Uv cand = None ->
+     forall b, nonneg b -> length b = nS (pm m) -> exists u, In u Uv /\ dot cand b <= dot u b) ->
+  forall fuel h vf, wit_run oracle prune fuel m h = Some vf ->
+  forall b, nonneg b -> length b = nS (pm m) -> vbest (last vf []) b == EV m h b.
+Proof.
+  intros prune H1 H2 H3 m Hwf Hc oracle Hcomp fuel h vf Hrun b Hb Hl.
+  assert (Hcomp' : forall t a Uv cand, oracle t a Uv cand = None ->
+            forall b, nonneg b -> length b = nS (pm m) -> exists u, In u Uv /\ dot cand b <= dot u b + 0 * qsum b).
+  { intros t a Uv cand E b' Hb' Hl'. destruct (Hcomp t a Uv cand E b' Hb' Hl') as [u [Hu Hle]]. exists u. split; [exact Hu| lra]. }
+  destruct (witness_run_value prune H1 H2 H3 m Hwf Hc 0 ltac:(lra) oracle Hcomp' fuel h vf Hrun b Hb Hl) as [Lo Up].
+  assert (E0 : forall n, wit_err m 0 n == 0) by (intros n; induction n as [|n IH]; cbn [wit_err]; [reflexivity| rewrite IH; ring]).
+  rewrite (E0 h) in Lo. lra.
+Qed.
+Print Assumptions witness_run_exact.
+
+(* The "no witness" answers of the real LP are checked, not trusted: such an answer is accepted only
+   with convex weights over the rows that certify it (none_cert_ok; the dual of the witness LP). *)
+Theorem witness_none_cert_sound : forall S eps rows cand lam, none_cert_ok S eps rows cand lam = true ->
+  forall b, nonneg b -> length b = S -> exists u, In u rows /\ dot cand b <= dot u b + eps * qsum b.
+Proof. exact none_cert_sound_lemma. Qed.
+Print Assumptions witness_none_cert_sound.
+
+(* Hence the model run that the correspondence check compares with the implementation — the agenda
+   loop driven by the transcript [ans] of the real LP answers, every "no witness" answer certified by
+   weights [lam] found by an untrusted search — satisfies the bound with NO assumption on [ans], [lam]. *)
+Theorem witness_run_certified : forall (prune : vlist -> vlist),
+  (forall l e, In e (prune l) -> In e l) ->
+  (forall l, l <> [] -> prune l <> []) ->
+  (forall S l b, l <> [] -> wfl S l -> nonneg b -> length b = S -> vbest (prune l) b == vbest l b) ->
+  forall m, wf_pomdp1 m -> obs_clean m ->
+  forall eps, 0 <= eps ->
+  forall ans lam fb fuel h vf,
+  wit_run (cert_oracle (nS (pm m)) eps ans lam fb) prune fuel m h = Some vf ->
+  forall b, nonneg b -> length b = nS (pm m) ->
+    EV m h b - wit_err m eps h * qsum b <= vbest (last vf []) b /\ vbest (last vf []) b <= EV m h b.
+Proof.
+  intros prune H1 H2 H3 m Hwf Hc eps He ans lam fb fuel h vf Hrun.
+  apply (witness_run_value prune H1 H2 H3 m Hwf Hc eps He (cert_oracle (nS (pm m)) eps ans lam fb)
+           (cert_oracle_complete (nS (pm m)) eps ans lam fb) fuel h vf Hrun).
+Qed.
+Print Assumptions witness_run_certified.
+
+(* One step from ANY previous list w whose surface is within e0 (per unit of mass) below expectimax and
+   never above it — the form in which the correspondence runs the model: on the implementation's own
+   previous list, timestep by timestep. *)
+Theorem witness_step_certified : forall (prune : vlist -> vlist),
+  (forall l e, In e (prune l) -> In e l) ->
+  (forall l, l <> [] -> prune l <> []) ->
+  (forall S l b, l <> [] -> wfl S l -> nonneg b -> length b = S -> vbest (prune l) b == vbest l b) ->
+  forall m, wf_pomdp1 m -> obs_clean m ->
+  forall eps, 0 <= eps ->
+  forall ans lam fb fuel t w w' n e0, w <> [] -> wfl (nS (pm m)) w -> 0 <= e0 ->
+  (forall x, nonneg x -> length x = nS (pm m) -> EV m n x - e0 * qsum x <= vbest w x /\ vbest w x <= EV m n x) ->
+  wit_step (cert_oracle (nS (pm m)) eps ans lam fb) prune fuel t m w = Some w' ->
+  w' <> [] /\ wfl (nS (pm m)) w' /\
+  forall b, nonneg b -> length b = nS (pm m) ->
+    EV m (Datatypes.S n) b - (inject_Z (Z.of_nat (nO m)) * eps + gam (pm m) * e0) * qsum b <= vbest w' b /\
+    vbest w' b <= EV m (Datatypes.S n) b.
+Proof.
+  intros prune H1 H2 H3 m Hwf Hc eps He ans lam fb fuel t w w' n e0 Hne Hw He0 Hprev Hrun.
+  exact (wit_step_value_lemma prune H1 H2 H3 m Hwf Hc eps He (cert_oracle (nS (pm m)) eps ans lam fb)
+           (cert_oracle_complete (nS (pm m)) eps ans lam fb) fuel t w w' n e0 Hne Hw He0 Hprev Hrun).
+Qed.
+Print Assumptions witness_step_certified.
+
+(* non-vacuity: on ex_pomdp a certified run with a naive grid search for witnesses and single-row
+   certificates ends within the fuel and returns a non-trivial value function *)
+Definition ex_beliefs : list vec := [[1;0];[0;1];[1#2;1#2];[1#4;3#4];[3#4;1#4];[1#8;7#8];[7#8;1#8]].
+Definition ex_ans (t a : nat) (rows : list vec) (cand : vec) : option vec :=
+  find (fun b => forallb (fun r => if Qlt_le_dec (dot r b) (dot cand b) then true else false) rows) ex_beliefs.
+Definition ex_lam (t a : nat) (rows : list vec) (cand : vec) : vec :=
+  let idx := fst (fold_left (fun (st : nat * nat) r => let '(found, i) := st in
+                  (if (Nat.eqb found (length rows)) && pw_ge r cand then i else found, Datatypes.S i)) rows (length rows, O)) in
+  map (fun i => if Nat.eqb i idx then 1 else 0) (seq 0 (length rows)).
+Example ex_witness_run : exists vf,
+  wit_run (cert_oracle 2 0 ex_ans ex_lam [1#2;1#2]) prune_pw 200 ex_pomdp 2 = Some vf /\
+  length (last vf []) = 4%nat /\ vf = ip_run prune_pw ex_pomdp 2.
+Proof. eexists. split; [vm_compute; reflexivity| split; vm_compute; reflexivity]. Qed.
